@@ -69,7 +69,7 @@ pub fn run(args: &Args) {
     quiet_panics();
     let mut id = 0u64;
     let mut case_no = 0u64;
-    let mut judge = |rep: &mut Report, policy_s: &str, now: u64, input: &[Entry], what: serde_json::Value| {
+    let judge = |rep: &mut Report, policy_s: &str, now: u64, input: &[Entry], what: serde_json::Value| {
         let policy = match GarbageCollectionPolicy::from_str(policy_s) {
             Ok(p) => p,
             Err(e) => {
